@@ -4,3 +4,4 @@ import DiplomatModel.Utf8
 import DiplomatModel.Slices
 import DiplomatModel.Write
 import DiplomatModel.Config
+import DiplomatModel.Cfg
